@@ -24,7 +24,7 @@ import uuid
 
 import numpy as np
 
-from ..data import Data, DataType, FloatData, NumericData
+from ..data import Data, DataType, FloatData, NumericData, TextData
 from ..groups import PropertyGroup
 from ..shared.utils import box_intersect, mask_by_extent, merge_arrays
 from .object_base import ObjectType
@@ -625,13 +625,19 @@ class Drillhole(Points):
 
         input_values = np.r_[values]
 
+        def no_data(count):
+            # (text has its own empty value, as in validate_interval_data)
+            if input_values.dtype.kind in ["U", "S"]:
+                return np.full(count, "", dtype=input_values.dtype)
+            return np.ones(count) * np.nan
+
         if self.depths is None:
             self.add_vertices(self.desurvey(depth))
             self.depths = np.r_[
                 np.ones(self.n_vertices - depth.shape[0]) * np.nan, depth
             ]
             values = np.r_[
-                np.ones(self.n_vertices - input_values.shape[0]) * np.nan, input_values
+                no_data(self.n_vertices - input_values.shape[0]), input_values
             ]
         else:
             depths, indices = merge_arrays(
@@ -641,7 +647,7 @@ class Drillhole(Points):
                 collocation_distance=collocation_distance,
             )
             values = merge_arrays(
-                np.ones(self.n_vertices) * np.nan,
+                no_data(self.n_vertices),
                 input_values,
                 replace="B->A",
                 mapping=indices,
@@ -717,6 +723,16 @@ class Drillhole(Points):
                         and getattr(child.association, "name", None) == "VERTEX"
                     ):
                         child.values = child.format_values(child.values)[sort_ind]
+                    elif (
+                        isinstance(child, TextData)
+                        and getattr(child.association, "name", None) == "VERTEX"
+                        and child.values is not None
+                    ):
+                        # text logged at depths follows its vertices too
+                        text = np.atleast_1d(child.values).astype(object)
+                        padded = np.full(len(sort_ind), "", dtype=object)
+                        padded[: len(text)] = text[: len(sort_ind)]
+                        child.values = padded[sort_ind].astype(str)
 
                 if self.vertices is not None:
                     self.vertices = self.vertices[sort_ind, :]
